@@ -196,6 +196,8 @@ def snapshot(cpu, with_mem=True):
         elif isinstance(v, list):
             for i, e in enumerate(v):
                 out['%s[%d]' % (k, i)] = e.value if isinstance(e, AbstractRegister) else e
+    if hasattr(cpu, 'cplog'):
+        out['cplog'] = tuple(cpu.cplog)
     out['wfe'] = cpu.is_wait_for_event
     out['wfi'] = cpu.is_wait_for_interrupt
     if with_mem:
@@ -214,6 +216,8 @@ def apply_state(cpu, state):
         elif k.startswith('mem'):
             arr = cpu.mem.memories[int(k[3:])].mem.memory_array
             arr[:] = v
+        elif k == 'cplog':
+            cpu.cplog = list(v)
         elif k == 'wfe':
             cpu.is_wait_for_event = v
         elif k == 'wfi':
